@@ -255,6 +255,8 @@ PROPS["C15"] = {
          "quick": {"checks": 1500, "shards": 4}, "thorough": {"checks": 15000, "shards": 16}},
         {"name": "sys-internalcron", "mode": "faketime", "test": "TestC15Sys",
          "quick": {"checks": 400, "shards": 4}, "thorough": {"checks": 5000, "shards": 16}},
+        {"name": "crolt-glue", "mode": "crolt", "test": "TestC15Crolt",
+         "quick": {"checks": 400, "shards": 4}, "thorough": {"checks": 6000, "shards": 16}},
     ],
 }
 
@@ -639,3 +641,4 @@ PROPS["C07"]["rule"] += " Half of the histories run with the cron state hooks in
 PROPS["C17"]["rule"] += " The histories also use enable, remRule, getRule, searchRules and the location-stats requests. A third part (concurrent-create) runs with existence checking: 2-8 clients issue 1-4 first requests each for a location that does not exist yet - checked requests (GetSize, which must fail until the location is created), unchecked loads (what an inherited search does for a parent) and CreateLocation - with spin delays, schedule noise and optionally 200/900 pre-stored records to make loads slow; once a CreateLocation has returned without error, that client's AddFact and the read of that fact must succeed, and after the burst the location exists and every acknowledged write is visible; non-trivial = a checked request failed or was in flight when a CreateLocation started."
 PROPS["C15"]["rule"] += " Part 1 also deletes locations (Location.Delete), uses rule ids that need quoting in JSON (a double quote, a backslash, a space), schedules with white space around them, and delivers each tick with the event text that was registered for the job (which must be JSON)."
 PROPS["C15"]["rule"] += " In half of the sys.System cases A and B have a parent location P (with a fact the rules' conditions look at and a yearly rule of its own that must never run); `outage` operations switch P off for 1.1 or 2.3 s, during which ticks may fail; recurring rules must be running again afterwards."
+PROPS["C15"]["rule"] += " A third part (crolt-glue) covers the persistent service end to end, in process: locations whose state hooks use cron.CroltSimple, whose HTTP client is routed to the handlers of the real crolt (package main, injected with -overlay; no network; firing loop not started); histories (2-14 ops) of adding scheduled rules (cron expressions, '+d', '!t', '@yearly'), writing them again with another schedule, overwriting them with ordinary rules or facts, RemRule, Clear, Delete and reload over two locations; after every op crolt's job table must hold exactly one job per live scheduled rule, with that rule's current schedule and an event that names the rule and its location; non-trivial = a scheduled rule was overwritten or removed."
